@@ -49,7 +49,7 @@ H_ENTRY(h_nts_verify) {
   long ss = ((s % H_Q) + H_Q) % H_Q, cc = ((c % H_Q) + H_Q) % H_Q;
   long rr = (powmod(H_G, ss, H_P) * powmod(invmod(y, H_P), cc, H_P)) % H_P;
   Z RR(rr), hh; tmcg_mpz_shash(hh, 2, (mpz_srcptr)M, (mpz_srcptr)RR);
-  bool spec = (hh.get() == c);
-  vf_assert(got == spec, "NTS::Verify(m,c,s) <=> c == H(m, g^s y^(-c) mod p)");
+  bool spec = (s >= 0 && s < H_Q) && (hh.get() == c);
+  vf_assert(got == spec, "NTS::Verify(m,c,s) <=> 0 <= s < q and c == H(m, g^s y^(-c) mod p)");
   H_END();
 }
